@@ -119,6 +119,20 @@ func init() {
 			}
 			return in.tc.BV(64, uint64(n))
 		},
+		"verif_timer_dur": func(in *Interp, fr *frame, a []Value) Value {
+			// duration of the k-th pending timer
+			k := int(in.concInt(a[0].(*Term), "timer_dur"))
+			n := 0
+			for _, t := range in.timers {
+				if !t.stopped && (!t.fired || t.ticker) {
+					if n == k {
+						return t.dur
+					}
+					n++
+				}
+			}
+			return in.i64c(-1)
+		},
 		"verif_fire_timer": func(in *Interp, fr *frame, a []Value) Value {
 			k := int(in.concInt(a[0].(*Term), "fire_timer"))
 			n := 0
